@@ -31,8 +31,8 @@ impl<T: Copy + Eq, const CAP: usize> CapSet<T, CAP> {
     }
     pub fn pos(&self, x: &T) -> Option<usize> {
         let mut i = 0;
-        while i < CAP {
-            if i < self.len && self.items[i].as_ref() == Some(x) {
+        while i < self.len {
+            if self.items[i].as_ref() == Some(x) {
                 return Some(i);
             }
             i += 1;
@@ -149,8 +149,8 @@ where
 {
     fn get(&self, key: &'a Q) -> Option<&T> {
         let mut i = 0;
-        while i < CAP {
-            if i < self.len {
+        while i < self.len {
+            {
                 if let Some(x) = self.items[i].as_ref() {
                     if x.borrow() == key {
                         return Some(x);
@@ -210,8 +210,8 @@ impl<K: Eq, V, const CAP: usize> CapMap<K, V, CAP> {
         K: Borrow<Q>,
     {
         let mut i = 0;
-        while i < CAP {
-            if i < self.len {
+        while i < self.len {
+            {
                 if let Some(kk) = self.keys[i].as_ref() {
                     if kk.borrow() == k {
                         return Some(i);
